@@ -51,6 +51,8 @@ CiRules == ReleaseRules("ci.release") \cup
   R("ci.variant", "type", "unknown", "reject"), R("ci.variant", "type", "upper", "reject"), R("ci.variant", "type", "none", "reject"),
   R("ci.variant", "arches", "emptyset", "reject"), R("ci.variant", "arches", "none", "reject"),
   R("ci.childvariant", "arches", "foreign", "reject"),
+  \* an architecture the TOP-level ancestor has but the direct parent lacks (needs three levels)
+  R("ci.grandchild", "arches", "foreign_ancestor", "reject"),
   \* a child UID that differs from <parent UID>-<id> only in dash placement
   R("ci.childvariant", "uid", "dashvariant", "reject"), R("ci.childvariant", "uid", "doubledash", "reject") }
 ImageRules == {
@@ -87,6 +89,8 @@ TiRules == {
   R("ti.variant", "name", "none", "na"),
   R("ti.childvariant", "uid", "misaligned", "reject"),
   R("ti.images", "image_paths", "absolute", "reject"), R("ti.images", "platforms", "unreferenced", "reject"),
+  \* the absolute path sits under an image name that another platform lists too (first / last platform holding it)
+  R("ti.sharedimages", "image_paths", "absolute_shared", "reject"), R("ti.sharedimages", "image_paths", "absolute_shared_last", "reject"),
   R("ti.images", "platforms", "arch_unreferenced", "reject"),     \* images under the tree arch itself, arch missing from tree.platforms
   R("ti.childvariant", "uid", "dashvariant", "na"),
   R("ti.stage2", "mainimage", "absolute", "reject"), R("ti.stage2", "mainimage", "int", "na"),
@@ -107,12 +111,12 @@ DiRules == {
 Rules == ComposeRules \cup CiRules \cup ImageRules \cup TiRules \cup DiRules
 
 \* node kinds a dump of each format visits and validates (composeinfo.py / images.py / treeinfo.py serialize chains)
-Walk == [ composeinfo |-> {"compose", "compose+label", "ci.release", "ci.base_product", "ci.variant", "ci.childvariant", "ci.vrelease"},
+Walk == [ composeinfo |-> {"compose", "compose+label", "ci.release", "ci.base_product", "ci.variant", "ci.childvariant", "ci.grandchild", "ci.vrelease"},
           images      |-> {"compose", "compose+label", "img.image", "img.plainimage"},
           rpms        |-> {"compose", "compose+label"},
           modules     |-> {"compose", "compose+label"},
           extra_files |-> {"compose", "compose+label"},
-          treeinfo    |-> {"ti.release", "ti.base_product", "ti.tree", "ti.variant", "ti.childvariant", "ti.images", "ti.stage2",
+          treeinfo    |-> {"ti.release", "ti.base_product", "ti.tree", "ti.variant", "ti.childvariant", "ti.images", "ti.sharedimages", "ti.stage2",
                            "ti.media", "ti.checksums"},
           discinfo    |-> {"di.discinfo"} ]
 FmtOf(s) == CHOOSE f \in DOMAIN Walk : \E i \in 0..9 : s = f \o "_" \o ToString(i)
